@@ -1,12 +1,285 @@
 import IpaVerif.Model.Util
-/-! Line-protocol handlers for property C12 (model side). Import-free. -/
+import IpaVerif.Model.Dp
+import IpaVerif.Generated.C12Consts
+/-! Line-protocol handlers for property C12 (model side) and the spec-side oracle. Import-free.
+
+Model side: the `f64` code transcribed over IEEE doubles (`floatArith`; `+ − × ÷` are correctly rounded, so the
+transcription is bit-exact; `e^{-ε}` and `1 − e^{-1/s}` are taken from the request).
+Oracle side: exact dyadic rationals — the documented law itself (smallest `n ≥ Δ` whose tail mass is `≤ δ`),
+with the stated tolerance band `1e-9` for decisions that hinge on float rounding (`float-boundary`). -/
 namespace IpaVerif.Driver.C12
-open IpaVerif.Util
+open IpaVerif.Util IpaVerif.Dp
 
-/-- `some response` if the request belongs to this property, else `none`. -/
-def handle (_toks : List String) : Option String := none
+def cap : Nat := IpaVerif.Generated.C12.cap
 
-/-- Property oracle on (request, implementation response): `some "holds"`, `some "fails <why>"`, or `none`. -/
-def oracle (_toks : List String) (_impl : String) : Option String := none
+def fl (s : String) : Option Float := do
+  let n ← s.toNat?
+  if n < 2 ^ 64 then pure (Float.ofBits n.toUInt64) else none
+
+def showCtor : Except CtorErr String → String
+  | .ok s => s
+  | .error e => "err " ++ e.name
+
+/-- `ok` iff the constructor the sampler request needs succeeds (`unwrap()` otherwise panics). -/
+def sampleOp (kind : String) (s p : Float) (pInt shift : Nat) (script : List Nat) : String :=
+  let done (r : Option (Int × List Nat)) : String :=
+    match r with
+    | some (v, rest) => s!"{v} {script.length - rest.length}"
+    | none => "panic:script exhausted"
+  match kind with
+  | "geo" =>
+      match geometricNew floatArith p with
+      | .error _ => "panic:called `Result::unwrap()`"
+      | .ok () => done ((geometric pInt (script.length + 1) script 0).map fun (a, r) => ((a : Int), r))
+  | "dg" =>
+      match doubleGeometricNew floatArith cap s shift p with
+      | .error _ => "panic:called `Result::unwrap()`"
+      | .ok () => done (doubleGeometric pInt shift script)
+  | "tdg" =>
+      match truncatedNew floatArith cap s shift p with
+      | .error _ => "panic:called `Result::unwrap()`"
+      | .ok _ => done ((truncatedSample pInt shift (script.length + 1) script).map fun (a, r) => ((a : Int), r))
+  | _ => "bad-request"
+
+def handle (toks : List String) : Option String :=
+  match toks with
+  | ["c12.oprf", eps, delta, sens, r, p] => some <| (do
+      let n := oprfNew floatArith cap (← fl eps) (← fl delta) (← sens.toNat?) (← fl r) (← fl p)
+      pure (showCtor (n.map fun n => s!"ok {n}"))).getD "bad-request"
+  | ["c12.tdg", s, shift, p] => some <| (do
+      pure (showCtor ((truncatedNew floatArith cap (← fl s) (← shift.toNat?) (← fl p)).map fun d => s!"ok {d}"))).getD "bad-request"
+  | ["c12.dg", s, shift, p] => some <| (do
+      pure (showCtor ((doubleGeometricNew floatArith cap (← fl s) (← shift.toNat?) (← fl p)).map fun _ => "ok"))).getD "bad-request"
+  | ["c12.geo", p] => some <| (do
+      pure (showCtor ((geometricNew floatArith (← fl p)).map fun _ => "ok"))).getD "bad-request"
+  | ["c12.noise", e, d, sp, dims, qs, l1, l2, li] => some <| (do
+      match noiseParamsNew floatArith (← fl e) (← fl d) (← fl sp) (← fl dims) (← fl qs) (← fl l1) (← fl l2) (← fl li) with
+      | .ok () => pure "ok"
+      | .error m => pure ("err " ++ m)).getD "bad-request"
+  | ["c12.maxeps"] => some (toString IpaVerif.Generated.C12.maxEpsilonBits)
+  | ["c12.sample", kind, s, p, pInt, shift, script] => some <| (do
+      pure (sampleOp kind (← fl s) (← fl p) (← pInt.toNat?) (← shift.toNat?) (← parseNatList script))).getD "bad-request"
+  | ["c12.shares", eps, delta, sens, r, p, pInt, bitSize, ov, dir, script] => some <| (do
+      let script ← parseNatList script
+      match oprfNew floatArith cap (← fl eps) (← fl delta) (← sens.toNat?) (← fl r) (← fl p) with
+      | .error e => pure ("err " ++ e.name)
+      | .ok shift =>
+        match laplaceModulus (← bitSize.toNat?) with
+        | none => pure "panic:assertion failed: bit_size <= 32"
+        | some modulus =>
+          match truncatedSample (← pInt.toNat?) shift (script.length + 1) script with
+          | none => pure "panic:script exhausted"
+          | some (sample, rest) =>
+            let (l, rr) := sampleShares modulus (← ov.toNat?) sample shift (dir == "L")
+            pure s!"{shift} {l} {rr} {script.length - rest.length}").getD "bad-request"
+  | _ => none
+
+/-! ### oracle: exact dyadic rationals -/
+
+/-- `m / 2^e` -/
+structure Dy where
+  m : Int
+  e : Nat
+
+inductive FClass where
+  | nan | posInf | negInf | fin (d : Dy)
+
+def classify (b : Nat) : FClass :=
+  let sign := b / 2 ^ 63 % 2
+  let ex := b / 2 ^ 52 % 2048
+  let frac := b % 2 ^ 52
+  if ex == 2047 then (if frac != 0 then .nan else if sign == 1 then .negInf else .posInf)
+  else
+    let mant : Nat := if ex == 0 then frac else 2 ^ 52 + frac
+    let e2 : Int := ((if ex == 0 then 1 else ex : Nat) : Int) - 1075
+    let m : Int := if sign == 1 then -(mant : Int) else mant
+    if e2 ≥ 0 then .fin ⟨m * 2 ^ e2.toNat, 0⟩ else .fin ⟨m, (-e2).toNat⟩
+
+def Dy.le (a b : Dy) : Bool := a.m * 2 ^ b.e ≤ b.m * 2 ^ a.e
+def Dy.lt (a b : Dy) : Bool := a.m * 2 ^ b.e < b.m * 2 ^ a.e
+def Dy.ofNat (n : Nat) : Dy := ⟨n, 0⟩
+
+/-- `tail(n) − δ` as a pair `(lhs, rhs)` of integers with `tail(n) ≤ δ ⟺ lhs ≤ rhs`, `rhs > 0`:
+`tail(n) = (r^{n−Δ+1} − r^{n+1}) / (1 + r − 2 r^{n+1})`, all scaled by `2^{e(n+1)}`. -/
+def tailCmp (rm re : Nat) (dm de : Nat) (n bigDelta : Nat) : Int × Int :=
+  let R (k : Nat) : Int := (rm ^ k * 2 ^ (re * (n + 1 - k)) : Nat)
+  let num : Int := R (n - bigDelta + 1) - R (n + 1)
+  let den : Int := (2 ^ (re * (n + 1)) : Nat) + R 1 - 2 * R (n + 1)
+  (num * 2 ^ de, dm * den)
+
+/-- `-1` tail clearly ≤ δ, `+1` clearly > δ, `0` within the tolerance band `|tail − δ|/δ ≤ 1e-9`. -/
+def tailSide (rm re dm de n bigDelta : Nat) : Int :=
+  let (l, r) := tailCmp rm re dm de n bigDelta
+  let diff := l - r
+  if diff.natAbs * 1000000000 ≤ r.natAbs then 0 else if diff ≤ 0 then -1 else 1
+
+def isErr (impl : String) : Bool := impl.startsWith "err"
+
+/-- documented open range `(lo, hi)`: `some true` inside, `some false` outside (NaN is outside),
+`none` exactly on a boundary (the documentation and the comparison operators disagree only there). -/
+def inOpen (x : FClass) (lo : Dy) (hi : Option Dy) : Option Bool :=
+  match x with
+  | .nan | .negInf => some false
+  | .posInf => some (hi.isNone)
+  | .fin d =>
+    if d.le lo && lo.le d then none
+    else match hi with
+      | some h => if d.le h && h.le d then none else some (lo.lt d && d.lt h)
+      | none => some (lo.lt d)
+
+def minPosDy : Dy := ⟨1, 1022⟩
+def oneDy : Dy := ⟨1, 0⟩
+def zeroDy : Dy := ⟨0, 0⟩
+
+def and3 (a b : Option Bool) : Option Bool :=
+  match a, b with
+  | some false, _ | _, some false => some false
+  | some true, some true => some true
+  | _, _ => none
+
+def verdict (b : Option Bool) (why : String) : Option String :=
+  match b with
+  | some true => some "holds"
+  | some false => some ("fails " ++ why)
+  | none => some "unknown"
+
+/-- spec for `OPRFPaddingDp::new`. -/
+def oracleOprf (epsB deltaB sens rB : Nat) (impl : String) : Option String :=
+  let rangeOk := and3 (and3 (inOpen (classify epsB) minPosDy none) (inOpen (classify deltaB) minPosDy (some oneDy)))
+    (some (decide (sens ≤ cap)))
+  if impl.startsWith "timeout" then some "fails the constructor does not return" else
+  if impl.startsWith "panic" then some s!"fails {impl}" else
+  match rangeOk with
+  | some false => verdict (some (isErr impl)) "parameters outside the documented range were accepted"
+  | none => some "holds boundary-unspecified"
+  | some true =>
+    match classify rB, classify deltaB with
+    | .fin r, .fin d =>
+      if ¬ (zeroDy.lt r && r.lt oneDy) then
+        -- e^{-ε} rounded to 0 or 1: the documented law is degenerate in f64; only "no crash" is required
+        some "holds degenerate-r"
+      else
+      let rm := r.m.toNat
+      let dm := d.m.toNat
+      match impl.splitOn " " with
+      | ["ok", n] =>
+        match n.toNat? with
+        | none => some "unknown"
+        | some n =>
+          if n < sens ∨ n > cap then some s!"fails truncation point {n} outside [Δ, cap]" else
+          let here := tailSide rm r.e dm d.e n sens
+          let below := if n == sens then 1 else tailSide rm r.e dm d.e (n - 1) sens
+          if here == 1 then some s!"fails tail mass at n={n} exceeds delta (sensitivity {sens})"
+          else if below == -1 then some s!"fails n={n} is not the smallest: tail mass at n-1 is already <= delta"
+          else if here == 0 ∨ below == 0 then some "holds float-boundary"
+          else some "holds"
+      | ["err", "BadShiftValue"] =>
+        -- correct iff even n = cap does not reach δ; exact evaluation at n = 10^6 is affordable only for short mantissas
+        if r.e * (cap + 1) > 80000000 then some "unknown"
+        else if tailSide rm r.e dm d.e cap sens == -1 then some "fails admissible parameters rejected: tail mass at n = cap is <= delta"
+        else some "holds"
+      | ["err", "BadGeometricProb"] | ["err", "BadS"] =>
+        -- 1/ε or 1 − e^{-ε} left the sampler's range although ε is admissible: only for extreme ε
+        some "unknown"
+      | _ => some s!"fails admissible parameters rejected ({impl})"
+    | _, _ => some "unknown"
+
+def oracleSimpleCtor (kind : String) (sB shift pB : Nat) (impl : String) : Option String :=
+  let sOk := if kind == "geo" then some true else inOpen (classify sB) minPosDy none
+  let pOk := match classify pB with
+    | .fin p => if p.lt minPosDy then some false else if oneDy.lt p then some false else some true
+    | _ => some false
+  let shOk := some (decide (shift ≤ cap))
+  if impl.startsWith "panic" ∨ impl.startsWith "timeout" then some s!"fails {impl}" else
+  match and3 (and3 sOk pOk) shOk with
+  | some true => verdict (some (impl.startsWith "ok")) s!"admissible parameters rejected ({impl})"
+  | some false => verdict (some (isErr impl)) "parameters outside the documented range were accepted"
+  | none => some "holds boundary-unspecified"
+
+def gtZero (b : Nat) : Option Bool :=
+  match classify b with
+  | .nan | .negInf => some false
+  | .posInf => some true
+  | .fin d => some (zeroDy.lt d)
+
+def oracleNoise (bs : List Nat) (impl : String) : Option String :=
+  match bs with
+  | [e, d, sp, dims, qs, l1, l2, li] =>
+    let spOk := match classify sp with
+      | .fin p => some (zeroDy.le p && p.le oneDy)
+      | _ => some false
+    -- `NoiseParams::new` documents only "delta must be > 0.0"
+    let deltaOk := gtZero d
+    let all := [gtZero e, deltaOk, spOk, gtZero dims, gtZero qs, gtZero l1, gtZero l2, gtZero li].foldl and3 (some true)
+    if impl.startsWith "panic" then some s!"fails {impl}" else
+    match all with
+    | some true => verdict (some (impl == "ok")) s!"admissible parameters rejected ({impl})"
+    | some false => verdict (some (isErr impl)) "a parameter outside the documented range (<= 0, NaN, success_prob outside [0,1]) was accepted"
+    | none => some "unknown"
+  | _ => none
+
+/-- spec sampler: number of leading stream values that are NOT below `p_int`. -/
+def specGeo (pInt : Nat) (s : List Nat) : Option (Nat × List Nat) :=
+  if pInt == alwaysTrue then some (0, s) else
+  match s.findIdx? (· < pInt) with
+  | some i => some (i, s.drop (i + 1))
+  | none => none
+
+def specDg (pInt shift : Nat) (s : List Nat) : Option (Int × List Nat) := do
+  let (a1, s1) ← specGeo pInt s
+  let (a2, s2) ← specGeo pInt s1
+  pure ((shift : Int) + a1 - a2, s2)
+
+partial def specTdg (pInt shift : Nat) (s : List Nat) : Option (Int × List Nat) :=
+  match specDg pInt shift s with
+  | none => none
+  | some (v, rest) => if 0 ≤ v ∧ v ≤ 2 * (shift : Int) then some (v, rest) else
+      if rest.length < s.length then specTdg pInt shift rest else none
+
+def oracleSample (kind : String) (pInt shift : Nat) (script : List Nat) (impl : String) : Option String :=
+  let spec := match kind with
+    | "geo" => (specGeo pInt script).map fun (a, r) => ((a : Int), r)
+    | "dg" => specDg pInt shift script
+    | _ => specTdg pInt shift script
+  if impl.startsWith "panic:called" then some "unknown" else
+  match spec with
+  | none => verdict (some (impl.startsWith "panic:script exhausted")) s!"the sampler returned {impl} although the stream never yields an accepted sample"
+  | some ((v : Int), (rest : List Nat)) =>
+    verdict (some (impl == s!"{v} {script.length - rest.length}")) s!"sampler returned {impl}, the outcome stream determines {v} after {script.length - rest.length} draws"
+
+def oracleShares (pInt bitSize ov : Nat) (dirLeft : Bool) (script : List Nat) (impl : String) : Option String :=
+  if bitSize > 32 then verdict (some (impl.startsWith "panic:assertion failed: bit_size <= 32")) "bit_size > 32 must be refused" else
+  match impl.splitOn " " with
+  | [shift, l, r, _] =>
+    match shift.toNat?, l.toNat?, r.toNat? with
+    | some shift, some l, some r =>
+      match specTdg pInt shift script with
+      | none => some "unknown"
+      | some (sample, _) =>
+        let w := min bitSize ov
+        let v := if dirLeft then r else l
+        let z := if dirLeft then l else r
+        -- the value placed in the shares represents sample − shift modulo 2^w
+        let want := ((sample - (shift : Int)) % (2 ^ w : Nat)).toNat
+        if z ≠ 0 then some "fails the share component towards the excluded helper is not zero"
+        else if v % 2 ^ w ≠ want then some s!"fails noise {sample - (shift : Int)} (sample {sample}, shift {shift}) is placed as {v}, expected {want} = noise mod 2^{w}"
+        else some "holds"
+    | _, _, _ => some "unknown"
+  | _ => if impl.startsWith "err" ∨ impl.startsWith "panic" then some s!"fails {impl}" else some "unknown"
+
+def oracle (toks : List String) (impl : String) : Option String :=
+  match toks with
+  | ["c12.oprf", eps, delta, sens, r, _p] => (do
+      oracleOprf (← eps.toNat?) (← delta.toNat?) (← sens.toNat?) (← r.toNat?) impl) <|> some "unknown"
+  | ["c12.tdg", s, shift, p] => (do oracleSimpleCtor "tdg" (← s.toNat?) (← shift.toNat?) (← p.toNat?) impl) <|> some "unknown"
+  | ["c12.dg", s, shift, p] => (do oracleSimpleCtor "dg" (← s.toNat?) (← shift.toNat?) (← p.toNat?) impl) <|> some "unknown"
+  | ["c12.geo", p] => (do oracleSimpleCtor "geo" 0 0 (← p.toNat?) impl) <|> some "unknown"
+  | "c12.noise" :: rest => (do oracleNoise (← rest.mapM String.toNat?) impl) <|> some "unknown"
+  | ["c12.maxeps"] => some (if impl == toString IpaVerif.Generated.C12.maxEpsilonBits then "holds" else "fails MAX_EPSILON differs from the extracted constant")
+  | ["c12.sample", kind, _s, _p, pInt, shift, script] => (do
+      oracleSample kind (← pInt.toNat?) (← shift.toNat?) (← parseNatList script) impl) <|> some "unknown"
+  | ["c12.shares", _eps, _delta, _sens, _r, _p, pInt, bitSize, ov, dir, script] => (do
+      oracleShares (← pInt.toNat?) (← bitSize.toNat?) (← ov.toNat?) (dir == "L") (← parseNatList script) impl) <|> some "unknown"
+  | _ => none
 
 end IpaVerif.Driver.C12
